@@ -33,6 +33,8 @@ static void one_case(unsigned char partial, size_t len)
     src = malloc(len);
 #endif
     __CPROVER_assume(src != 0);
+    if (len == 0 && nondet_bool())
+        src = 0;                         /* an empty message may be a null pointer */
 #if defined(VERIF_ALIAS)
     dest = src;
 #else
@@ -42,6 +44,8 @@ static void one_case(unsigned char partial, size_t len)
     dest = malloc(len);
 #endif
     __CPROVER_assume(dest != 0);
+    if (len == 0 && nondet_bool())
+        dest = 0;
 #endif
     verif_i = nondet_size();
     verif_exp_pos = partial;
